@@ -18,7 +18,7 @@ from vlib.core import Stage, fail
 ID = "C09"
 MANIFEST = {
     "category": "exploration",
-    "text": "Generated-input search: AHB expressions of the documented forms (1-4 modal-mark parts in all six spellings and any letter case, optional trailing bare modal mark; one prefix-operator part X/O/U in either case; bare indicator), whitespace (incl. none) around condition expressions. split: the resolved tree must consist of exactly the written parts in order (indicator token text, condition subtree matching the part's AST modulo in-run regrouping). select: against content evaluation results incl. UNKNOWN, the reported part must be the first fulfilled one (else the last), with the normalised indicator as enum member and exactly that part's own fulfilled / hints / collected format-constraint expression / format result; is_conditional is compared for single-part expressions only. Stage many-parts (enumerated): 11-14 (thorough: 8-40) modal-mark parts with suspending evaluators, evaluated three times on new event loops. A quarter of the packages end in a time condition.",
+    "text": "Generated-input search: AHB expressions of the documented forms (1-4 modal-mark parts in all six spellings and any letter case, optional trailing bare modal mark; one prefix-operator part X/O/U in either case; bare indicator), whitespace (incl. none) around condition expressions. split: the resolved tree must consist of exactly the written parts in order (indicator token text, condition subtree matching the part's AST modulo in-run regrouping). select: against content evaluation results incl. UNKNOWN, the reported part must be the first fulfilled one (else the last), with the normalised indicator as enum member and exactly that part's own fulfilled / hints / collected format-constraint expression / format result; is_conditional is compared for single-part expressions only. Stage many-parts (enumerated): 11-14 (thorough: 8-40) modal-mark parts with suspending evaluators, evaluated three times on new event loops. A quarter of the packages end in a time condition. Stage deep-conditions (enumerated): 'Muss <condition nested 120 / 260 (thorough: 60-300) brackets deep> Soll [2][902] Kann' with the first part fulfilled or not; expected state of the nested condition by an iterative fold.",
     "note": "Trusted: ref.match, ref.state/select_part, the real single-part evaluators used as a differential reference for hints and format results (C04/C07/C08 judge those separately). Bounded: <= 4 parts, <= 8 atoms per part. Process configuration by shard (vlib/sut.py; recorded in replay files): plain / parse caches preheated beyond their size / warnings attributed to ahbicht raised as errors / logging fully enabled with every record rendered; one event loop per process or a new one per call; five process time zones; the hash seed is the shard number; namesakes of ahbicht's marshmallow schema classes are registered. Every registry of evaluators / providers / resolvers that the harness builds (sut.configure) also holds one of each kind that names no EDIFACT format and no format version; these must never be asked.",
     "technique": "property-based testing with a by-construction oracle (split) and a differential/reference oracle (selection)",
 }
@@ -259,4 +259,5 @@ STAGES = [
           floors={"later-part-selected": 0.1, "lower-case-prefix-operator": 0.02},
           sample=lambda c: {"s": c["s"], "cer": c["cer"]}),
     large.stage("many-parts", large.c09_check, large.c09_cases),
+    large.stage("deep-conditions", large.c09_deep_check, large.c09_deep_cases),
 ]  # fmt: skip
